@@ -15,6 +15,7 @@ import numpy as np
 
 from qv.lib import Prescribed, Rec, derive_seed, rng_for
 
+PACKAGE_RAISE_IS_VIOLATION = True  # every shard input is built inside the statement's domain (see qv/shard.py)
 LEVEL = "exploration"
 RULE = (
     "one evaluation = one update_delta call on (min_delta, max_delta, reference variance, scheme, update function, variance input); "
